@@ -178,13 +178,19 @@ class _ExactLanguageSearch:
             to_parse = original
 
         parser = DateDataParser(languages=languages, settings=settings)
-        parsed, substrings = self.parse_found_objects(
-            parser=parser,
-            to_parse=to_parse,
-            original=original,
-            translated=translated,
-            settings=settings,
-        )
+        relative_base = parser._settings.RELATIVE_BASE
+        try:
+            parsed, substrings = self.parse_found_objects(
+                parser=parser,
+                to_parse=to_parse,
+                original=original,
+                translated=translated,
+                settings=settings,
+            )
+        finally:
+            # parse_item() points the settings object, which is shared with every
+            # other user of the same configuration, at dates found in the text
+            parser._settings.RELATIVE_BASE = relative_base
         parser._settings = Settings()
         return list(zip(substrings, [i[0]["date_obj"] for i in parsed]))
 
